@@ -1293,10 +1293,11 @@ impl BuiltInFunction {
 
             #[cfg(not(target_arch = "wasm32"))]
             Self::TimeNow => Ok(Value::Number(
-                std::time::SystemTime::now()
-                    .duration_since(std::time::UNIX_EPOCH)
-                    .unwrap()
-                    .as_secs_f64(),
+                // seconds since the Unix epoch; negative while the system clock is set before 1970
+                match std::time::SystemTime::now().duration_since(std::time::UNIX_EPOCH) {
+                    Ok(elapsed) => elapsed.as_secs_f64(),
+                    Err(before) => -before.duration().as_secs_f64(),
+                },
             )),
 
             // Higher-order functions
